@@ -257,6 +257,10 @@ def judge_collection(s, docs, n_post, cidx, again_plan):
                 if merr is None:
                     s.custom_violation('strict-collection-accepted-messages-after-roDelete',
                                        {'n_post': n_post}, wit, status='strict')
+            elif merr is not None and not mc.completed:
+                # the refusal says "completed": it can only come from a running order that has received its roDelete
+                s.custom_violation('completed-merge-error-from-a-running-order-that-is-not-completed',
+                                   {'n_post': n_post, 'msg': str(merr)[:120]}, wit, status='strict')
         else:
             if merr is not None:
                 s.custom_violation('non-strict-collection-merge-raised',
